@@ -1,6 +1,6 @@
 (* Props/C10.v -- property C10: receive windows follow the regional parameters in force when the uplink was sent. *)
 From Coq Require Import NArith ZArith List Bool.
-From LoraV Require Import Base.Bytes Gen.RegionTables Model.Region Model.Mac Spec.RP002 Proofs.WindowProofs.
+From LoraV Require Import Base.Bytes Gen.RegionTables Model.Region Model.Mac Spec.RP002 Proofs.WindowProofs Model.AsyncDev Proofs.AsyncWindows.
 Import ListNotations.
 Local Open Scope N_scope.
 
@@ -52,4 +52,36 @@ Section C10.
     nth_error (r_uplink r) (N.to_nat chn) = Some (tc_freq tc) /\
     nth_error (r_downlink r) (N.to_nat (chn mod 8)) = Some (tc_rx1_freq tc) /\ tc_dr tc = dr /\ tc_index tc = chn.
   Proof. exact fixed_plan_pairing. Qed.
+
+  (* The asynchronous front-end (async_device/mod.rs: send -> rx_downlink -> between_windows/rx_listen/window_complete) on a radio
+     that accepts every call and hears nothing: after any successful uplink the device makes exactly these radio and timer calls --
+     RX1 opens at RECEIVE_DELAY1 (+ the 100 ms margin - the radio's lead time) after the end of the transmission with the window
+     computed when the uplink was built, RX2 one second later with the RX2 window computed then; nothing else is commanded. *)
+  Variable enc : list N -> list N -> list N.
+  Variable mac_fn : list N -> list N -> list N.
+  Theorem C10_async_class_a_window_schedule : forall d e data fport confirmed draws o,
+    ad_classc d = false -> quiet e -> ad_lead d <= 100 ->
+    send enc mac_fn (ad_mac d) data fport confirmed draws = Val (SendOk o) ->
+    let m := to_mac o in
+    let lead := ad_lead d in
+    let '(d', e', r) := adev_send enc mac_fn d e data fport confirmed draws in
+    rev (e_trace e') = rev (e_trace e) ++
+      [ATx (to_tx o) (to_frame o); ATimerReset;
+       ALowPower; ATimerAt (cf_rx1_delay (m_cfg m) + 100 - lead); ASetupRx (to_rx1 o) (Some lead); ARxSingle; ALowPower;
+       ALowPower; ATimerAt (cf_rx1_delay (m_cfg m) + 1000 + 100 - lead); ASetupRx (to_rx2 o) (Some lead); ARxSingle; ALowPower].
+  Proof. exact (async_class_a_window_schedule enc mac_fn). Qed.
+
+  (* Class C: the same two windows; before, between and after them the device listens continuously with the RX2 parameters *)
+  Theorem C10_async_class_c_window_schedule : forall d e data fport confirmed draws o rfc,
+    ad_classc d = true -> quiet e -> ad_lead d <= 100 ->
+    send enc mac_fn (ad_mac d) data fport confirmed draws = Val (SendOk o) ->
+    rxc_config (to_mac o) = Val rfc ->
+    let m := to_mac o in
+    let lead := ad_lead d in
+    let '(d', e', r) := adev_send enc mac_fn d e data fport confirmed draws in
+    rev (e_trace e') = rev (e_trace e) ++
+      [ATx (to_tx o) (to_frame o); ATimerReset;
+       ASetupRx rfc None; ARxContPending; ATimerAt (cf_rx1_delay (m_cfg m) + 100 - lead); ASetupRx (to_rx1 o) (Some lead); ARxSingle; ASetupRx rfc None;
+       ASetupRx rfc None; ARxContPending; ATimerAt (cf_rx1_delay (m_cfg m) + 1000 + 100 - lead); ASetupRx (to_rx2 o) (Some lead); ARxSingle; ASetupRx rfc None].
+  Proof. exact (async_class_c_window_schedule enc mac_fn). Qed.
 End C10.
